@@ -618,7 +618,7 @@ fn main() {
 	let n_big: u64 = run.tier.pick(10, 90);
 	let n_real: u64 = run.tier.pick(3, 20);
 	let orders_per_big: usize = run.tier.pick(24, 60);
-	let deadline = run.tier.pick(100.0, 800.0);
+	let deadline = run.tier.pick(300.0, 1200.0);
 	if let Some((i, n)) = run.worker_shard() {
 		worker(&run, i, n, deadline);
 		run.finish_worker();
